@@ -349,6 +349,14 @@ class Runner:
         open(self.plat, "w").write(PLAT)
         open(self.hosts, "w").write("".join("h%d\n" % i for i in range(8)))
         self.smpirun = os.path.join(core.SGBUILD, "smpi_script", "bin", "smpirun")
+        libdir = os.environ.get("VERIF_C37_LIBDIR")
+        if libdir:
+            # experiment knob (as VERIF_C34_LIBDIR): run with another libsimgrid.so (e.g. one relinked with a patched
+            # smpi_replay.cpp); smpirun puts its own lib directory first, so use a copy of the script that does not
+            txt = open(self.smpirun).read().replace('export LD_LIBRARY_PATH="', 'export LD_LIBRARY_PATH="%s:' % libdir, 1)
+            self.smpirun = os.path.join(ctx.work, "smpirun-libdir")
+            open(self.smpirun, "w").write(txt)
+            os.chmod(self.smpirun, 0o755)
 
     def base(self, n):
         return [self.smpirun, "-np", str(n), "-platform", self.plat, "-hostfile", self.hosts,
@@ -435,7 +443,7 @@ def run(ctx):
         # separate class (own stream of the seed, the ordinary programs of a seed stay what they were): several pending
         # requests under one (sender, receiver, tag), waited for one by one -- outside `WfProg` of the Lean theorem on
         # the issued calls, inside the property: judged by the date monitor (and the per-line grammar check)
-        nsame = 10 if ctx.tier == "quick" else 60
+        nsame = 6 if ctx.tier == "quick" else 40
         if ctx.broken:
             nsame *= 10
         progs = corpus + [gen_prog(rng.fork(i)) for i in range(nprog)] + \
